@@ -114,8 +114,9 @@ class DecisionLogger(DecisionLogSink):
             if self.max_env_bytes is not None:
                 try:
                     serialized = json.dumps(redacted_env, ensure_ascii=False)
-                    if len(serialized) > self.max_env_bytes:
-                        safe["env"] = {"_truncated": True, "size_bytes": len(serialized)}
+                    size_bytes = len(serialized.encode("utf-8"))
+                    if size_bytes > self.max_env_bytes:
+                        safe["env"] = {"_truncated": True, "size_bytes": size_bytes}
                     else:
                         safe["env"] = redacted_env
                 except Exception:
